@@ -366,9 +366,11 @@ def mkfn(ctx, idx, spec, asynchronous=True, suspend=False, flavour=None):
         return None
     if callable(flavour):
         flavour = flavour()
-    if flavour in ("def", "partial", "object", "awaitobj") and asynchronous:
+    if flavour in ("def", "partial", "object", "awaitobj", "awaitclass") and asynchronous:
         async def af(*args):
             ctx.ev("call", idx, args)
+            if suspend:
+                await ctx.suspend(("call", idx))
             ctx.use()
             return apply_fn(spec, list(args))
         if flavour == "def":
@@ -383,6 +385,15 @@ def mkfn(ctx, idx, spec, asynchronous=True, suspend=False, flavour=None):
             async def af2(_dummy, *args):
                 return await af(*args)
             return _ft.partial(af2, None)
+
+        if flavour == "awaitclass":
+            class _AwClass:       # the callable is a *class*; calling it creates an instance, and the instance is awaitable
+                def __init__(self, *args):
+                    self.args = args
+
+                def __await__(self):
+                    return af(*self.args).__await__()
+            return _AwClass
 
         if flavour == "awaitobj":
             class _AwObj:        # an awaitable that is not a coroutine object (like a Future)
@@ -801,7 +812,7 @@ def _alarm(signum, frame):
     raise Runaway("wall-clock watchdog")
 
 
-def run_impl(case, suspend=False, cancel_at=None, cancel_id=9, reply=False):
+def run_impl(case, suspend=False, cancel_at=None, cancel_id=9, reply=False, flavour=None):
     """Run the asyncstdlib tool under a wall-clock watchdog."""
     import signal
     old = signal.signal(signal.SIGALRM, _alarm)
@@ -815,7 +826,7 @@ def run_impl(case, suspend=False, cancel_at=None, cancel_id=9, reply=False):
     oldhooks = sys.get_asyncgen_hooks()
     sys.set_asyncgen_hooks(firstiter=lambda agen: None, finalizer=orphans.append)
     try:
-        r = _run_impl(case, suspend, cancel_at, cancel_id, reply)
+        r = _run_impl(case, suspend, cancel_at, cancel_id, reply, flavour)
         r["unraisable"] = unraisable
         r["orphans"] = ["%s" % getattr(g, "__qualname__", g) for g in orphans]
         return r
@@ -828,7 +839,7 @@ def run_impl(case, suspend=False, cancel_at=None, cancel_id=9, reply=False):
         signal.signal(signal.SIGALRM, old)
 
 
-def _run_impl(case, suspend=False, cancel_at=None, cancel_id=9, reply=False):
+def _run_impl(case, suspend=False, cancel_at=None, cancel_id=9, reply=False, flavour=None):
     """Run the asyncstdlib tool on instrumented class-based sources. Returns dict(outcome, log, states, uses, srcs)."""
     plan = case.plan
     ctx = Ctx((plan[0], plan_exc(plan[1], plan[0])) if plan else None)
@@ -838,7 +849,7 @@ def _run_impl(case, suspend=False, cancel_at=None, cancel_id=9, reply=False):
         script_items = srcs[0]
     else:
         srcs = [src_class(acl, i, items, len(case.srcs))(ctx, i, items, suspend=suspend) for i, (items, acl) in enumerate(builtins.zip(case.srcs, case.acl))]
-    obj = t.impl(ctx, srcs, suspend=suspend)
+    obj = t.impl(ctx, srcs, suspend=suspend, flavour=flavour) if flavour else t.impl(ctx, srcs, suspend=suspend)
     if t.kind == "agg":
         coro = run_agg(obj)
     else:
